@@ -222,7 +222,7 @@ class C07(Check):
     pid = "C07"
     quick_cases = 2600
     lean_files = ([os.path.join(paths.LEAN, "Verif", "C07", f) for f in
-                   ("Model.lean", "Driver.lean", "Props.lean", "Lemmas.lean", "WfLemmas.lean")]
+                   ("Model.lean", "Driver.lean", "Props.lean", "Lemmas.lean", "WfLemmas.lean", "DmrsLemmas.lean")]
                   + [os.path.join(paths.LEAN, "Verif", "Common", f) for f in
                      ("Sem.lean", "SemJson.lean", "SemLemmas.lean")])
     thorough_cases = 60000
@@ -252,7 +252,9 @@ class C07(Check):
         "up to the order inside a conjoined scope; the BFS start of is_connected is compared for every start "
         "(more than 12 predications: first, middle and last start only; the oracle additionally re-runs the real "
         "is_connected on the reversed predication list)",
-        "descendants/representatives of a DMRS are checked by the direct oracle only (not modelled)",
+        "descendants/representatives of a DMRS are computed by the model over the scope map the real d.scopes() "
+        "returned (node order inside a conjoined scope is Python set order); that scope map is compared separately, as "
+        "a partition plus the members of the top scope, with the model's DMRS.scopes; DMRS node ids are pairwise distinct",
         "recursion depth of scope._descendants stays below CPython's limit (structures have < 20 predications)",
     ]
     trusted_base = ["hand-written model lean/Verif/Common/Sem.lean (+ C07/Model.lean), tied to delphin.mrs / "
@@ -282,6 +284,11 @@ class C07(Check):
         ("RepPriority", lambda: scope._make_representative_priority),
         ("DmrsScopes", lambda: _dmrs_mod().DMRS.scopes),
         ("DmrsNormalize", lambda: _dmrs_mod()._normalize_top_and_links),
+        ("DmrsArguments", lambda: _dmrs_mod().DMRS.arguments),
+        ("DmrsScopalArguments", lambda: _dmrs_mod().DMRS.scopal_arguments),
+        ("DmrsIsQuantifier", lambda: _dmrs_mod().DMRS.is_quantifier),
+        ("DmrsProperties", lambda: _dmrs_mod().DMRS.properties),
+        ("DmrsInit", lambda: _dmrs_mod().DMRS.__init__),
         ("NodeEq", lambda: _dmrs_mod().Node.__eq__),
         ("Bfs", lambda: _util_mod()._bfs),
         ("ConnectedComponents", lambda: _util_mod()._connected_components),
@@ -388,8 +395,82 @@ class C07(Check):
             for k, m in enumerate(semgen.enum_small_mrs(3)):
                 if k % 997 == off % 997 and len(m["rels"]) == 3:
                     yield {"kind": "mrs", "src": "enum", "m": m, "leqs": semgen.gen_leqs(rng, m)}
+        yield from self.fixed_cases()
         yield from self.big_cases(rng, tier)
         yield from self.random_cases(rng, n)
+
+    # hand-picked structures that every run contains
+    def fixed_cases(self):
+        def ep(pred, lbl, args):
+            return {"pred": pred, "label": ["h", lbl], "args": args, "carg": None, "lnk": None, "surface": None,
+                    "base": None}
+
+        def mrs(rels, hcons, leqs=(), top=("h", 0)):
+            return {"kind": "mrs", "src": "fixed", "leqs": [list(map(list, e)) for e in leqs],
+                    "m": {"top": list(top) if top else None, "index": None, "rels": rels,
+                          "hcons": [[["h", a], r, ["h", b]] for a, r, b in hcons], "icons": [], "vars": []}}
+        a0 = lambda s, i: ["ARG0", [s, i]]                                    # noqa: E731
+        # (i) predications sharing a label but not adjacent in RELS
+        yield mrs([ep("_a", 1, [a0("e", 1)]), ep("_b", 2, [a0("e", 2), ["ARG1", ["e", 1]]]),
+                   ep("_c", 1, [a0("e", 3), ["ARG1", ["e", 1]]]), ep("_d", 2, [a0("e", 4), ["ARG1", ["e", 2]]]),
+                   ep("_e", 1, [a0("e", 5), ["ARG1", ["e", 3]]]), ep("_f", 3, [a0("x", 6)]),
+                   ep("_g", 2, [a0("e", 7), ["ARG1", ["x", 6]]])],
+                  [(0, "qeq", 1)], leqs=[(("h", 1), ("h", 3))])
+        yield mrs([ep("_a", 1, [a0("e", 1)]), ep("_b", 2, [a0("e", 2)]), ep("_c", 1, [a0("e", 3)]),
+                   ep("_d", 3, [a0("e", 4)]), ep("_e", 2, [a0("e", 5)]), ep("_f", 1, [a0("e", 6)])],
+                  [(0, "qeq", 2)], leqs=[(("h", 3), ("h", 2))])
+        # (ii) argument-poor MRSs held together only by shared ARG0s (and one that is not)
+        yield mrs([ep("_a", 1, [a0("x", 1)]), ep("_b", 2, [a0("x", 1)]), ep("_c", 3, [a0("x", 1)]),
+                   ep("_d", 4, [a0("x", 1)])], [(0, "qeq", 1)])
+        yield mrs([ep("_a", 1, [a0("x", 1)]), ep("_b", 2, [a0("x", 1)]), ep("_c", 2, [a0("e", 2)]),
+                   ep("_d", 3, [a0("e", 2)]), ep("_q", 4, [a0("e", 2), ["RSTR", ["h", 9]]])], [(0, "qeq", 1)])
+        yield mrs([ep("_a", 1, [a0("x", 1)]), ep("_b", 2, [a0("x", 1)]), ep("_c", 3, [a0("e", 2)]),
+                   ep("_d", 4, [a0("e", 2)])], [(0, "qeq", 1)])          # two islands
+        # (iii) a predication taking the IV of something inside its OWN scopal argument while all its
+        # scope-mates depend on it (it is the representative) — and the variant where that something sits
+        # below a scope-mate instead (nobody is)
+        yield mrs([ep("_A", 1, [a0("e", 1), ["ARG1", ["h", 5]], ["ARG2", ["x", 4]]]),
+                   ep("_B", 1, [a0("e", 2), ["ARG1", ["e", 1]]]), ep("_C", 1, [a0("e", 3), ["ARG1", ["e", 1]]]),
+                   ep("_D", 6, [a0("x", 4)])], [(0, "qeq", 1), (5, "qeq", 6)])
+        yield mrs([ep("_A", 1, [a0("e", 1), ["ARG2", ["x", 4]]]),
+                   ep("_B", 1, [a0("e", 2), ["ARG1", ["e", 1]], ["ARG2", ["h", 5]]]),
+                   ep("_C", 1, [a0("e", 3), ["ARG1", ["e", 1]]]),
+                   ep("_D", 6, [a0("x", 4)])], [(0, "qeq", 1), (5, "qeq", 6)])
+        yield mrs([ep("_A", 1, [a0("e", 1), ["ARG1", ["h", 6]], ["ARG2", ["x", 4]]]),      # lheq instead of qeq
+                   ep("_B", 1, [a0("e", 2), ["ARG1", ["e", 1]]]),
+                   ep("_D", 6, [a0("x", 4)]), ep("_E", 6, [a0("e", 7), ["ARG1", ["x", 4]]])], [(0, "qeq", 1)])
+
+        # DMRS: equal-comparing nodes, parallel / cyclic / self EQ links, scopal cycles, dangling links
+        def node(i, pred="_dog_n_1", typ="x", props=()):
+            return {"id": i, "pred": pred, "type": typ, "props": [list(p) for p in props], "carg": None,
+                    "lnk": None, "surface": None, "base": None}
+
+        def dm(top, nodes, links, index=None):
+            return {"kind": "dmrs", "src": "fixed", "d": {"top": top, "index": index, "nodes": nodes,
+                                                         "links": [list(l) for l in links]}}
+        four = [node(10000), node(10001), node(10002), node(10003)]
+        yield dm(10003, four, [(10000, 10001, "ARG1", "EQ"), (10002, 10003, "ARG1", "EQ")])
+        yield dm(10002, four, [(10000, 10001, "ARG1", "EQ"), (10001, 10000, "ARG2", "EQ"),      # parallel + cycle
+                               (10000, 10001, "ARG1", "EQ"), (10001, 10002, "ARG1", "EQ"),
+                               (10002, 10000, "ARG1", "EQ"), (10003, 10003, "ARG1", "EQ")])     # self loop
+        yield dm(10001, four, [(10000, 10001, "ARG1", "H"), (10001, 10002, "ARG1", "HEQ"),
+                               (10002, 10000, "ARG1", "H"), (10002, 10003, "ARG2", "NEQ")])     # scopal cycle
+        yield dm(10000, four, [(10000, 10001, "ARG1", "H"), (10001, 10002, "ARG1", "EQ"),
+                               (10002, 10003, "ARG1", "NEQ"), (10000, 10003, "ARG2", "H"),
+                               (10002, 10001, "MOD", "EQ")])
+        yield dm(10000, four, [(10000, 10009, "ARG1", "H")])                                      # AssertionError
+        yield dm(10000, four, [(10009, 10001, "ARG1", "H"), (10000, 10008, "ARG1", "HEQ")])      # KeyError first
+        yield dm(10000, four, [(10000, 10009, "ARG1", "NEQ")])                                    # arguments KeyError
+        yield dm(None, four, [(0, 10002, "", "H"), (0, 10001, "", "H"), (10001, 10002, "ARG1", "EQ")])
+        yield dm(10001, [node(10000, "_big_a_1", "e", [("TENSE", "past")]), node(10001, "_big_a_1", "e"),
+                         node(10002, "_big_a_1", "e", [("TENSE", "UNTENSED")]), node(10003, "_the_q", None),
+                         node(10004, "_dog_n_1", "x")],
+                 [(10000, 10001, "MOD", "EQ"), (10001, 10002, "MOD", "EQ"), (10003, 10004, "RSTR", "H"),
+                  (10002, 10004, "ARG1", "NEQ")])
+        for top, links in ((None, [[0, 5, "", "H"], [0, 6, "", "H"], [5, 6, "ARG1", "EQ"]]),
+                           (7, [[0, 5, "", "H"], [5, 0, "ARG1", "EQ"]]), (None, []), (0, [[0, 3, "", "H"]]),
+                           (None, [[1, 2, "ARG1", "NEQ"]])):
+            yield {"kind": "norm", "src": "fixed", "top": top, "links": links}
 
     # large, densely linked structures — the same list in every run (the rng only
     # decides orientation / order), then a random share inside random_cases
@@ -465,8 +546,12 @@ class C07(Check):
             elif r < 0.78:
                 m = semgen.gen_mrs_wild(rng, allow_missing_iv=rng.random() < 0.1)
                 yield {"kind": "mrs", "src": "wild", "m": m, "leqs": semgen.gen_leqs(rng, m)}
-            else:
+            elif r < 0.97:
                 yield {"kind": "dmrs", "src": "dmrs", "d": semgen.gen_dmrs(rng)}
+            else:
+                links = [[rng.choice([0, 0, 1, 2, 3]), rng.choice([0, 1, 2, 3]), rng.choice(["", "ARG1"]),
+                          rng.choice(["H", "EQ", "NEQ"])] for _ in range(rng.randrange(0, 5))]
+                yield {"kind": "norm", "src": "norm", "top": rng.choice([None, None, 0, 2, 9]), "links": links}
 
     def search_cases(self, rng, tier, n, seeds):
         kinds = sorted({c.get("src") for c in seeds if c.get("src") in
@@ -482,6 +567,8 @@ class C07(Check):
     def impl(self, case):
         if case["kind"] == "mrs":
             return self.impl_mrs(case)
+        if case["kind"] == "norm":
+            return self.impl_norm(case)
         return self.impl_dmrs(case)
 
     def impl_mrs(self, case):
@@ -519,31 +606,51 @@ class C07(Check):
     def impl_dmrs(self, case):
         d = semgen.dmrs_from_json(case["d"])
         res = {}
+
+        def attempt(f):
+            try:
+                return {"ok": f()}
+            except (KeyError, AssertionError) as e:      # a link to/from a node that does not exist
+                return {"err": type(e).__name__}
+        res["args_all"] = attempt(lambda: [[i, [[r, t] for r, t in a]] for i, a in d.arguments().items()])
+        res["args_ns"] = attempt(lambda: [[i, [[r, t] for r, t in a]] for i, a in d.arguments(types="xeipu").items()])
+        res["is_quantifier"] = [bool(d.is_quantifier(n.id)) for n in d.nodes]
         try:
             top, scopes = d.scopes()
             res["scopes"] = {"ok": {"top": V(top), "scopes": [[V(l), [n.id for n in ns]] for l, ns in scopes.items()]}}
         except KeyError:
             res["scopes"] = {"err": "KeyError"}
             return res
-        # descendants / representatives: termination and membership (oracle only)
-        try:
-            ds = scope.descendants(d)
-            res["descendants"] = {"ok": sorted([i, sorted(n.id for n in ns)] for i, ns in ds.items())}
-        except (KeyError, AssertionError) as e:      # a link to/from a node that does not exist
-            res["descendants"] = {"err": type(e).__name__}
-        try:
-            reps = scope.representatives(d)
-            res["reps"] = {"ok": [[V(l), [n.id for n in ns]] for l, ns in reps.items()]}
-        except (KeyError, AssertionError) as e:
-            res["reps"] = {"err": type(e).__name__}
+        res["scargs"] = attempt(lambda: [[i, [[r, rel, (V(t) if isinstance(t, str) else None)] for r, rel, t in a]]
+                                         for i, a in d.scopal_arguments(scopes=scopes).items()])
+        res["descendants"] = attempt(lambda: [[i, [n.id for n in ns]] for i, ns in scope.descendants(d, scopes).items()])
+        # representatives() calls d.scopes() itself: same construction, same set order as `scopes`
+        res["reps"] = attempt(lambda: [[V(l), [n.id for n in ns]] for l, ns in scope.representatives(d).items()])
+        res["descendants_default"] = attempt(
+            lambda: [[i, [n.id for n in ns]] for i, ns in scope.descendants(d).items()])
         return res
+
+    def impl_norm(self, case):
+        from delphin.dmrs import DMRS, Link
+        d = DMRS(top=case["top"], links=[Link(a, b, r, p) for a, b, r, p in case["links"]])
+        return {"top": d.top, "links": [[l.start, l.end, l.role, l.post] for l in d.links]}
 
     # ---- model
     def model_request(self, case):
         if case["kind"] == "mrs":
             return {"op": "mrs", "m": case["m"], "leqs": case.get("leqs", [])}
+        if case["kind"] == "norm":
+            return {"op": "dmrs_norm", "top": case["top"], "links": case["links"]}
         d = semgen.dmrs_from_json(case["d"])
-        return {"op": "dmrs", "d": semgen.dmrs_to_json(d)}
+        req = {"op": "dmrs", "d": semgen.dmrs_to_json(d)}
+        # descendants / representatives are computed by the model over the scope map the real
+        # d.scopes() returned (the order inside a conjoined scope is Python set order)
+        try:
+            _, scopes = d.scopes()
+            req["obs"] = [[V(l), [n.id for n in ns]] for l, ns in scopes.items()]
+        except KeyError:
+            pass
+        return req
 
     @staticmethod
     def _canon_partition(scopemap):
@@ -555,7 +662,9 @@ class C07(Check):
             exp = dict(res)
             exp["connected_any_start"] = True
             return exp
-        return res["scopes"]
+        if case["kind"] == "norm":
+            return res
+        return {k: v for k, v in res.items() if k != "descendants_default"}
 
     def model_compare(self, case, expected, answer):
         if isinstance(answer, dict) and "unmodelled" in answer:
@@ -570,21 +679,31 @@ class C07(Check):
                 e["conjoin"] = {"ok": self._canon_partition(e["conjoin"]["ok"])}
                 a["conjoin"] = {"ok": self._canon_partition(a["conjoin"]["ok"])}
             return super().model_compare(case, e, a)
-        # dmrs: compare the partition and the top scope's members
-        if "ok" in expected and isinstance(answer, dict) and "ok" in answer:
-            def norm(o):
-                top = o["top"]
-                topm = None
-                if top is not None:
-                    topm = [sorted(ids) for l, ids in o["scopes"] if l == top]
-                return {"top": topm, "scopes": sorted(sorted(ids) for _, ids in o["scopes"])}
-            return super().model_compare(case, norm(expected["ok"]), norm(answer["ok"]))
-        return super().model_compare(case, expected, answer)
+        if case["kind"] == "norm":
+            return super().model_compare(case, expected, answer)
+        # dmrs: scopes as a partition plus the members of the top scope; everything else exactly
+        def norm(o):
+            if not (isinstance(o, dict) and "ok" in o):
+                return o
+            o = o["ok"]
+            top = o["top"]
+            topm = None
+            if top is not None:
+                topm = [sorted(ids) for l, ids in o["scopes"] if l == top]
+            return {"top": topm, "scopes": sorted(sorted(ids) for _, ids in o["scopes"])}
+        e = dict(expected)
+        a = dict(answer) if isinstance(answer, dict) else answer
+        if isinstance(a, dict) and "scopes" in a:
+            e["scopes"] = norm(e["scopes"])
+            a["scopes"] = norm(a["scopes"])
+        return super().model_compare(case, e, a)
 
     # ---- direct oracle
     def oracle(self, case, res):
         if case["kind"] == "mrs":
             return self.oracle_mrs(case, res)
+        if case["kind"] == "norm":
+            return self.oracle_norm(case, res)
         return self.oracle_dmrs(case, res)
 
     def oracle_mrs(self, case, res):
@@ -769,15 +888,137 @@ class C07(Check):
             if len(holder) != 1 or top != holder[0]:
                 fail("DMRS top scope is not the scope containing the top node itself",
                      {"impl": top, "holds_top_node": holder})
-        # descendants / representatives terminate; representatives are members
-        if "ok" in res.get("reps", {}):
-            reps = scope.representatives(d)
-            for key, ns in reps.items():
-                for n in ns:
-                    if not any(n is q for q in scopes.get(key, [])):
-                        # scopes() is recomputed inside representatives: compare by node id
-                        if n.id not in {q.id for q in scopes.get(key, [])}:
-                            fail("a DMRS representative is not a member of its scope", key)
+        # ---- arguments / scopal arguments / descendants / representatives over the links
+        idset = set(ids)
+        node_of = {n.id: n for n in nodes}
+        links = list(d.links)
+        scopal = [l for l in links if l.post in ("H", "HEQ")]
+
+        def want_args(types):
+            out = {i: [] for i in ids}
+            for l in links:
+                if l.role == "MOD":
+                    continue
+                if types is not None:
+                    if l.post in ("H", "HEQ"):
+                        continue                       # 'h' is not among 'xeipu'
+                    if l.end not in idset:
+                        return "KeyError"
+                    t = node_of[l.end].type
+                    if t is None or t not in types:
+                        continue
+                if l.start not in idset:
+                    return "KeyError"
+                out[l.start].append([l.role, l.end])
+            return [[i, out[i]] for i in ids]
+        for key, types in (("args_all", None), ("args_ns", "xeipu")):
+            w = want_args(types)
+            got = res[key].get("ok", res[key].get("err"))
+            if got != w:
+                fail("DMRS.arguments differs from the links it is defined by", {"which": key, "want": w, "got": got})
+        isq = [any(l.role == "RSTR" and l.start == i for l in links) for i in ids]
+        if res["is_quantifier"] != isq:
+            fail("DMRS.is_quantifier differs from 'has an outgoing RSTR link'", None)
+        label_of = {n.id: key for key, ns in scopes.items() for n in ns}
+        members = {key: [n.id for n in ns] for key, ns in scopes.items()}
+        if any(l.start not in idset for l in scopal):
+            want_desc_err = "KeyError"
+        elif any(l.end not in idset for l in scopal):
+            want_desc_err = "AssertionError"
+        else:
+            want_desc_err = None
+        if "err" in res["scargs"]:
+            if not any(l.start not in idset for l in scopal):
+                fail("DMRS.scopal_arguments raises although every scopal link starts at a node", None)
+        else:
+            w = {i: [] for i in ids}
+            ok = True
+            for l in scopal:
+                if l.start not in idset:
+                    ok = False
+                    break
+                lab = label_of.get(l.end)
+                w[l.start].append([l.role, "lheq" if l.post == "HEQ" else "qeq", V(lab) if lab is not None else None])
+            if not ok or res["scargs"]["ok"] != [[i, w[i]] for i in ids]:
+                fail("DMRS.scopal_arguments differs from the H/HEQ links resolved to scope labels", None)
+        for key in ("descendants", "descendants_default"):
+            got_err = res[key].get("err")
+            if got_err != want_desc_err:
+                fail("scope.descendants on a DMRS: wrong outcome for dangling scopal links",
+                     {"which": key, "want": want_desc_err, "got": got_err})
+        if res["descendants"] != res["descendants_default"]:
+            fail("scope.descendants(d) differs from scope.descendants(d, d.scopes()[1])", None)
+        succ = None
+        if want_desc_err is None and "ok" in res["descendants"]:
+            succ = {i: [] for i in ids}
+            for l in scopal:
+                succ[l.start].extend(members[label_of[l.end]])
+            cyclic = scopal_cyclic(succ)
+            got = dict((i, ns) for i, ns in res["descendants"]["ok"])
+            if sorted(got) != sorted(ids):
+                fail("descendants of a DMRS are not keyed by exactly the node ids", None)
+            else:
+                for i in ids:
+                    want = set(naive_reach(succ, i))
+                    if not set(got[i]) <= want:
+                        fail("a listed DMRS descendant is not a scopal descendant", i)
+                    elif not cyclic and set(got[i]) != want:
+                        fail("DMRS descendants (acyclic scopal links) differ from the transitive closure", i)
+        # representatives
+        ns_w = want_args("xeipu")
+        want_rep_err = "KeyError" if ns_w == "KeyError" else want_desc_err
+        if res["reps"].get("err") != want_rep_err:
+            fail("scope.representatives on a DMRS: wrong outcome for dangling links",
+                 {"want": want_rep_err, "got": res["reps"].get("err")})
+        if "ok" in res["reps"] and want_rep_err is None:
+            reps = res["reps"]["ok"]
+            if [canon(l) for l, _ in reps] != [canon(V(k)) for k in scopes]:
+                fail("DMRS representatives' keys are not the scope labels", None)
+            else:
+                nsargs = {i: {t for _, t in a} for i, a in ns_w}
+                position = {i: k for k, i in enumerate(ids)}
+
+                def rank(i):
+                    n = node_of[i]
+                    if isq[position[i]] or n.type == "x":
+                        return 0
+                    if n.type == "e":
+                        return 2 if n.properties.get("TENSE", "").lower() in ("", "untensed") else 1
+                    return 3
+                cyclic = scopal_cyclic(succ)
+                for (l, got), key in zip(reps, scopes):
+                    mem = members[key]
+                    if any(i not in mem for i in got) or len(set(got)) != len(got):
+                        fail("a DMRS representative is not a member of its scope", key)
+                        continue
+                    if cyclic:
+                        continue
+                    if len(mem) == 1:
+                        want = list(mem)
+                    else:
+                        want = []
+                        for i in mem:
+                            others = [j for j in mem if j != i]
+                            blocked = bool(nsargs[i] & set(others)) or any(
+                                nsargs[i] & set(naive_reach(succ, j)) for j in others)
+                            if not blocked:
+                                want.append(i)
+                    want.sort(key=lambda i: (rank(i), position[i]))
+                    if got != want:
+                        fail("DMRS representatives differ from their definition (unblocked members by priority)",
+                             {"scope": key, "want": want, "got": got})
+        return fails
+
+    def oracle_norm(self, case, res):
+        fails = []
+        top = case["top"]
+        if top is None:
+            top = next((l[1] for l in case["links"] if l[0] == 0), None)
+        want = {"top": top, "links": [l for l in case["links"] if l[0] != 0]}
+        if res != want:
+            fails.append({"clause": "DMRS constructor: top / links differ from the documented normalisation "
+                                    "(links from node 0 removed; the first gives the top when none is given)",
+                          "detail": {"want": want, "got": res}})
         return fails
 
     # ---- known findings
@@ -800,7 +1041,8 @@ class C07(Check):
 
     # ---- evidence
     def nontrivial_key(self, case, res):
-        body = case["m"]["rels"] if case["kind"] == "mrs" else case["d"]["nodes"]
+        body = (case["m"]["rels"] if case["kind"] == "mrs" else case["links"] if case["kind"] == "norm"
+                else case["d"]["nodes"])
         if not body:
             return None
         return canon(case)
@@ -811,6 +1053,9 @@ class C07(Check):
         inc("src:" + case.get("src", "corpus"))
         if res is None:
             inc("impl:none")
+            return
+        if case["kind"] == "norm":
+            inc("norm:top=" + ("given" if case["top"] is not None else "from-link" if res["top"] is not None else "none"))
             return
         if case["kind"] == "mrs":
             m = case["m"]
@@ -854,6 +1099,16 @@ class C07(Check):
             inc("dmrs:nodes=%s" % (nn if nn <= 6 else "7-15" if nn <= 15 else "16-31" if nn <= 31 else "32+"))
             if sum(1 for l in d["links"] if l[3] == "EQ") >= 20:
                 inc("dmrs:eq-links>=20")
+            for k in ("args_ns", "scargs", "descendants", "reps"):
+                if k in res:
+                    inc("dmrs:%s=%s" % (k, res[k].get("err", "ok")))
+            if "ok" in res.get("descendants", {}) and any(ns for _, ns in res["descendants"]["ok"]):
+                inc("dmrs:has-descendants")
+            if "ok" in res.get("reps", {}) and any(not ns for _, ns in res["reps"]["ok"]):
+                inc("dmrs:scope-without-representative")
+            if "ok" in res.get("reps", {}) and "ok" in res["scopes"] and any(
+                    len(ns) < len(ms) for (_, ns), (_, ms) in zip(res["reps"]["ok"], res["scopes"]["ok"]["scopes"])):
+                inc("dmrs:some-member-not-representative")
             if "err" in res["scopes"]:
                 inc("dmrs:KeyError")
             else:
@@ -885,6 +1140,8 @@ class C07(Check):
         def lists(c):
             if c["kind"] == "mrs":
                 return [(c["m"], "rels"), (c["m"], "hcons"), (c, "leqs"), (c["m"], "vars")]
+            if c["kind"] == "norm":
+                return [(c, "links")]
             return [(c["d"], "links"), (c["d"], "nodes")]
 
         cur = copy.deepcopy(case)
